@@ -214,6 +214,8 @@ def main(run: Run):
     run.functions["amaranth_soc.wishbone.bus.Decoder.elaborate"] = "per-configuration (bounded: geometry, feature subsets, window sets), all inputs"
     run.functions["amaranth_soc.wishbone.bus.Decoder.add"] = "exercised (refusals counted); window ranges taken from bus.memory_map.windows()"
     run_configs(run, __name__, cfgs)
+    from . import patterns_l1
+    patterns_l1.add_to(run)
     return run.finish(
         explanation="wishbone.Decoder.elaborate contract: per-subordinate selection by the memory map's window range, request "
                     "copy with feature defaults, select fan-out, dense address offset, response relay under the Wishbone "
